@@ -139,7 +139,7 @@ def main():
              "kind_free_text": "cargo workspace of runtime monitors, one binary per property, (reference models, probe operators, recording RNG, statistical monitor, event-log checkers; Miri/TSan for C09) that path-depends on /repo/packages/* and is rebuilt by ./check on every run"},
         ],
         "checks": checks,
-        "notes": "Runtime monitoring only. Verdicts are three-valued; INCONCLUSIVE lines never fail a run, a run that observed nothing exits 3. known_findings.json lists repaired (fixed:) and open findings; only open entries with an exact signature are downgraded to KNOWN-FINDING lines. Every check runs as a supervised child of itself (a death of the process while a worker thread is inside a call into the code under test is reported as <ID>/aborted with that thread's context; otherwise INCONCLUSIVE, exit 3) and runs a hang watchdog: a worker thread that burns more than 300 (quick) / 900 (thorough) CPU-seconds inside one monitored evaluation is reported as <ID>/hang; the largest gap seen is written into the evidence (coverage.hang_watchdog).",
+        "notes": "Runtime monitoring only. Verdicts are three-valued; INCONCLUSIVE lines never fail a run, a run that observed nothing exits 3. known_findings.json lists repaired (fixed:) and open findings; only open entries with an exact signature are downgraded to KNOWN-FINDING lines. Every check runs as a supervised child of itself (a death of the process while a worker thread is inside a call into the code under test is reported as <ID>/aborted with that thread's context; otherwise INCONCLUSIVE, exit 3) and runs a hang watchdog: a worker thread that burns more than 150 (quick) / 900 (thorough) CPU-seconds inside one monitored evaluation is reported as <ID>/hang; the largest gap seen is written into the evidence (coverage.hang_watchdog).",
         "not_applicable": [{"property_id": p, "reason": PENDING_REASON} for p in ALL if p not in CHECKS],
     }
     with open(os.path.join(ROOT, "MANIFEST.json"), "w") as f:
